@@ -357,3 +357,4 @@ harness!(serde_roundtrip_b4, unwind 19, {
         chk!("roundtrip_same_reaction_to_add", g.registers()[k] == h2.registers()[k]);
     }
 });
+
